@@ -2,7 +2,7 @@
 From Coq Require Import ZArith List Bool.
 From Exactly Require Import Model.Interval Proofs.IntervalSound Proofs.FilterExact.
 Import ListNotations.
-Open Scope Z_scope.
+Local Open Scope Z_scope.
 
 (** The (pos, inv) pair computed for an integer-matcher expression is sound: every integer the
     expression accepts lies in [pos], every integer it rejects lies in [inv].  For all
